@@ -519,6 +519,12 @@ def run(ctx):
     timed("count", _part_count, [ctx.scale(150, 6000)] * 16)
     run_cases(ctx, [("is_tree", S_IFMTS + [(1 << 32) - 1, 1 << 31, 0o40000 | 0o777, 0o140000])], judge_is_tree_modes)
     timed("battery", _part_battery, [(ctx.seed * 100 + k, ctx.scale(2, 12)) for k in range(ctx.scale(8, 64))])
+    # coverage-guided differential campaigns (E3): coverage of the Python twin steers, the oracle compares with Rust
+    from .. import fuzz
+
+    t = time.time()
+    fuzz.run_campaigns(ctx, "vf.fuzzt.c15", [(name, ctx.scale(8000, 600000), ctx.scale(4, 4)) for name in ("parse_tree", "count_blocks", "create_delta", "sorted_tree_items")])
+    ctx.note("wall_fuzz", round(time.time() - t, 1))
 
 
 _JUDGES = {}
@@ -533,6 +539,10 @@ def _judges():
 
 
 def replay(ctx, check, case):
+    if check.startswith("fuzz"):
+        from .. import fuzz
+
+        return fuzz.replay(ctx, case, check)
     if check == "battery":
         _part_battery(ctx, (case["seed"], case["n"]))
         return
